@@ -232,13 +232,15 @@ func (p *TracerProvider) UnregisterSpanProcessor(sp SpanProcessor) {
 			idx = i
 		}
 	}
-	if stopOnce != nil {
-		stopOnce.state.Do(func() {
-			if err := sp.Shutdown(context.Background()); err != nil {
-				otel.Handle(err)
-			}
-		})
+	if stopOnce == nil {
+		// sp is not registered: there is nothing to stop or remove.
+		return
 	}
+	stopOnce.state.Do(func() {
+		if err := sp.Shutdown(context.Background()); err != nil {
+			otel.Handle(err)
+		}
+	})
 	if len(spss) > 1 {
 		copy(spss[idx:], spss[idx+1:])
 	}
